@@ -144,6 +144,37 @@ def llvm_kernels(req, bridge, C):
     return rep
 
 
+_PAGES = []
+
+
+def _guarded_array(ctype, values):
+    """An array that ends exactly at the end of a mapped page, followed by 1 MiB of inaccessible address space: a read
+    or write past its end faults instead of silently hitting whatever the allocator put there."""
+    import ctypes
+    import mmap
+
+    from tensora.compile import tensor_cdefs
+
+    page = mmap.PAGESIZE
+    size = {"int32_t": 4, "double": 8}[ctype] * len(values)
+    data_pages = (size + page - 1) // page or 1
+    tail = 256 * page
+    mm = mmap.mmap(-1, data_pages * page + tail)
+    base = ctypes.addressof(ctypes.c_char.from_buffer(mm))
+    libc = ctypes.CDLL(None, use_errno=True)
+    libc.mprotect.argtypes = [ctypes.c_void_p, ctypes.c_size_t, ctypes.c_int]
+    if libc.mprotect(base + data_pages * page, tail, 0) != 0:
+        raise OSError("mprotect failed")
+    start = base + data_pages * page - size
+    arr = tensor_cdefs.cast(ctype + "*", start)
+    for k, v in enumerate(values):
+        arr[k] = v
+    _PAGES.append(mm)  # never unmapped while the worker lives (a handful of pages per program)
+    if len(_PAGES) > 64:
+        del _PAGES[:32]
+    return arr
+
+
 def llvm_program(req, bridge, C):
     """JIT a pickled IR module (hex) and run its single-tensor function ``evaluate`` on each environment.
     env: {"ints": [..4], "floats": [...], "slots": n} -> vals after the call (as floats)."""
@@ -160,9 +191,9 @@ def llvm_program(req, bridge, C):
     outs = []
     for env in req["envs"]:
         ct = allocate_taco_structure((0, 0, 0, 0), (0, 0, 0, 0), (0, 1, 2, 3))
-        dims = tensor_cdefs.new("int32_t[]", env["ints"])
+        dims = _guarded_array("int32_t", env["ints"])
         ct.dimensions = dims
-        vals = tensor_cdefs.new("double[]", list(env["floats"]) + [0.0] * env["slots"])
+        vals = _guarded_array("double", list(env["floats"]) + [0.0] * env["slots"])
         ct.vals = vals
         rc = _call(engine, "evaluate", 1, [ct])
         outs.append({"rc": rc, "vals": list(vals[0 : len(env["floats"]) + env["slots"]]), "ints": list(dims[0:4])})
